@@ -990,6 +990,32 @@ theorem step_inv {s : Sys} {op : Op} (h : Inv s) (hop : OpOk op) : Inv (step s o
     · refine ⟨hws, ?_⟩
       intro c hc
       simp at hc
+  | flushFail i wc ch =>
+    simp only [step]
+    split
+    · refine ⟨?_, hfile⟩
+      intro w hw
+      rcases mem_modAt hw with h' | ⟨w0, hw0, rfl⟩
+      · exact hws w h'
+      · refine ⟨?_, by intro d hd; simp at hd⟩
+        simp only [failMem]
+        split
+        · exact (hws w0 hw0).1
+        · exact commitData_wf (hws w0 hw0).1 (hws w0 hw0).2
+    · exact ⟨hws, hfile⟩
+  | swap i j =>
+    simp only [step]
+    split
+    · rename_i hi
+      simp only [Bool.and_eq_true, decide_eq_true_eq] at hi
+      refine ⟨?_, hfile⟩
+      intro w hw
+      rcases mem_modAt hw with h' | ⟨w0, _, rfl⟩
+      · rcases mem_modAt h' with h'' | ⟨w1, _, rfl⟩
+        · exact hws w h''
+        · exact ⟨(hws _ (getW_mem hi.1)).1, by intro d hd; simp at hd⟩
+      · exact ⟨wf_nil, by intro d hd; simp at hd⟩
+    · exact ⟨hws, hfile⟩
   | extFile f =>
     refine ⟨hws, ?_⟩
     intro c hc
@@ -1061,6 +1087,28 @@ theorem step_bounded {s : Sys} (op : Op) (h : BoundedSys s) : BoundedSys (step s
   | halfWrite i =>
     simp only [step] at hw
     split at hw <;> exact h w hw
+  | flushFail i wc ch =>
+    -- a flush whose write failed: with `flushFailKeepsMemory` the memory is what it was (without it, the unbounded
+    -- merge `memory ∪ file` stays behind: `Props.C18.failed_flush_old_shape_unbounded`)
+    simp only [step] at hw
+    split at hw
+    · rcases mem_modAt hw with h' | ⟨w0, hw0, rfl⟩
+      · exact h w h'
+      · have hk : failMem flushFailKeepsMemory s.cfg ch s.now wc w0 = w0.mem := by
+          simp [failMem, flushFailKeepsMemory]
+        simpa [hk] using h w0 hw0
+    · exact h w hw
+  | swap i j =>
+    simp only [step] at hw
+    split at hw
+    · rename_i hi
+      simp only [Bool.and_eq_true, decide_eq_true_eq] at hi
+      rcases mem_modAt hw with h' | ⟨w0, _, rfl⟩
+      · rcases mem_modAt h' with h'' | ⟨w1, _, rfl⟩
+        · exact h w h''
+        · exact h (getW s.ws i) (getW_mem hi.1)
+      · exact bounded_nil _
+    · exact h w hw
   | extFile f => exact h w hw
 
 theorem run_bounded : ∀ (ops : List Op) (s : Sys), BoundedSys s → BoundedSys (run s ops) := by
